@@ -45,8 +45,24 @@ Fixpoint res_avail (v : resvec) (n i : Z) : Z :=
   | [] => 0
   | (n', i', q) :: v' => (if res_match n i n' i' then q else 0) + res_avail v' n i
   end.
-(* Resources.__gt__ / __eq__ / total_ordering's __lt__ *)
-Definition res_gt (a b : resvec) : bool := forallb (fun e => let '(n, i, q) := e in q <=? res_avail a n i) b.
+(* Resources.__gt__ (as repaired in /repo 402c33a): the requests are played one after the other on a scratch copy of
+   the available quantities, each taking from the matching entries in order *)
+Fixpoint take_loop (v : resvec) (n i rem : Z) : resvec * Z :=
+  match v with
+  | [] => ([], rem)
+  | (n', i', q) :: v' =>
+      if res_match n i n' i' && (0 <? rem)
+      then let t := Z.min q rem in
+           let '(v'', r) := take_loop v' n i (rem - t) in ((n', i', q - t) :: v'', r)
+      else let '(v'', r) := take_loop v' n i rem in ((n', i', q) :: v'', r)
+  end.
+Fixpoint res_play (v : resvec) (req : resvec) : bool :=
+  match req with
+  | [] => true
+  | (n, i, q) :: req' => let '(v', r) := take_loop v n i q in if 0 <? r then false else res_play v' req'
+  end.
+Definition res_gt (a b : resvec) : bool := res_play a b.
+(* Resources.__eq__ / total_ordering's __lt__ *)
 Definition res_eq (a b : resvec) : bool := forallb (fun e => let '(n, i, q) := e in res_avail a n i =? q) b.
 Definition res_lt (a b : resvec) : bool := negb (res_gt a b) && negb (res_eq a b).
 (* Resources.allocate, after its availability check *)
